@@ -21,7 +21,7 @@ type Outcome struct {
 	DelayArg  int  `json:"da,omitempty"`
 	Gate      bool `json:"g,omitempty"`
 	Bar       bool `json:"b,omitempty"`
-	ErrKind   int  `json:"ek,omitempty"` // errors: 0 pointer, 1 comparable struct value, 2 slice-typed error (not comparable), 3 a wrapped error (fmt.Errorf %w) 4 an error that unwraps to context.DeadlineExceeded 5 fmt.Errorf("...%w", context.Canceled)
+	ErrKind   int  `json:"ek,omitempty"` // errors: 0 pointer, 1 comparable struct value, 2 slice-typed error (not comparable), 3 a wrapped error (fmt.Errorf %w) 4 an error that unwraps to context.DeadlineExceeded 5 fmt.Errorf("...%w", context.Canceled) 6 context.Canceled itself 7 context.DeadlineExceeded itself
 	Nest      bool `json:"n,omitempty"`  // the function first runs another program's directive to completion (nested directive)
 }
 
@@ -243,7 +243,7 @@ func GenScenario(p *Program, r *Rand, exec uint64, tagName string, k int) *Scena
 	}
 	failOutcome := func(f *Fn, panicsOnly bool) Outcome {
 		if f.Err && !panicsOnly && r.Chance(1, 2) {
-			return Outcome{Kind: OErr, ErrKind: r.PickInt(0, 0, 1, 2, 3, 4, 5)}
+			return Outcome{Kind: OErr, ErrKind: r.PickInt(0, 0, 1, 2, 3, 4, 5, 6, 7)}
 		}
 		return Outcome{Kind: OPanic, PanicKind: r.Intn(NumPanicKinds)}
 	}
@@ -478,7 +478,7 @@ func GenScenario(p *Program, r *Rand, exec uint64, tagName string, k int) *Scena
 		round := k / len(cand)
 		o := Outcome{Kind: OPanic, PanicKind: k % NumPanicKinds}
 		if f.Err && round%2 == 0 {
-			o = Outcome{Kind: OErr, ErrKind: (k / 2) % 6}
+			o = Outcome{Kind: OErr, ErrKind: (k / 2) % 8}
 		}
 		if f.Role == "slice" || f.Role == "map" {
 			c := p.collOf(f.ID)
